@@ -367,8 +367,8 @@ Qed.
 Lemma R_out_opt r s : R (Ok r) s -> abs_out (of_opt r) = of_opt s /\ out_inv (of_opt r).
 Proof.
   destruct s as [l|]; simpl.
-  - intros [y [E [Iy Ay]]]. inversion E; subst. simpl. rewrite Ay. auto.
-  - intros E. inversion E; subst. simpl. auto.
+  - intros [y [E [Iy Ay]]]. injection E as ->. simpl. rewrite Ay. auto.
+  - intros E. injection E as ->. simpl. auto.
 Qed.
 
 Theorem apply_refines strict x o : Inv_vv x -> strict = true \/ op_safe x o ->
